@@ -332,6 +332,61 @@ func checkC19(c *Check) {
 				}
 			}
 		}
+		if !okEach {
+			// path form, indifferent to how the guard is written: the loop goes on to the next group (and the function
+			// reaches a nil return) only where the element's ValidateBasic is known to have returned nil, and the edge on
+			// which it did not leads to a non-nil error return
+			for _, call := range callsIn(vdg, false) {
+				cv, isC := call.(*ssa.Call)
+				if !isC || calleeMethod(call) != "ValidateBasic" || loopHeaderOf(call.Block()) == nil {
+					continue
+				}
+				h := loopHeaderOf(call.Block())
+				body := loopBlocks(h)
+				okNil := func(b *ssa.BasicBlock) bool {
+					for _, a := range factsAt(b) {
+						if a.Op == "eq" && isNilConst(a.Y) && a.X == ssa.Value(cv) {
+							return true
+						}
+					}
+					return false
+				}
+				all, nl := true, 0
+				for _, p := range h.Preds {
+					if body[p] && p != h {
+						nl++
+						if !okNil(p) {
+							all = false
+						}
+					}
+				}
+				for _, r := range successReturns(vdg) {
+					if body[r.Block()] && !okNil(r.Block()) {
+						all = false
+					}
+				}
+				rej := false
+				for _, rr := range *cv.Referrers() {
+					if bo, isB := rr.(*ssa.BinOp); isB && bo.Referrers() != nil {
+						for _, r2 := range *bo.Referrers() {
+							if ifi, isIf := r2.(*ssa.If); isIf {
+								at := condAtom(ifi.Cond, true)
+								idx := 0
+								if at.Op == "eq" {
+									idx = 1 // the != nil edge is the false edge
+								}
+								if errReturnVia(ifi.Block(), ifi.Block().Succs[idx]) {
+									rej = true
+								}
+							}
+						}
+					}
+				}
+				if all && nl > 0 && rej {
+					okEach = true
+				}
+			}
+		}
 		c.Ob("R2", "ValidateDeploymentGroups validates every group and propagates its error", vdg.Pos(), okEach, "a group can skip per-group validation")
 		// duplicate names: a map lookup on the group's name with an error exit on 'exists'
 		dup := false
